@@ -52,6 +52,8 @@ structure Cfg where
   maxT : List Nat := []           -- max_eject_attempts (0 = unlimited)
   edges : List (Nat × Nat) := []  -- eject_targets
   missing : Nat := 0              -- ball_missing_target = captures_from playfield
+  mech : List Bool := []          -- mechanical_eject: the player can let the ball go at any time
+  ext : List Bool := []           -- confirm_eject_type switch / event: the eject is confirmed by an external signal
   deriving Repr
 
 structure St where
@@ -72,6 +74,8 @@ structure St where
   brokenPosted : List Nat := []
   requested : Nat := 0
   delivered : Nat := 0
+  manual : List Bool := []        -- a mechanical eject that began while the device was idle is under way
+  skipping : List Bool := []      -- `_skipping_ball`: an expected ball may have passed the (mechanical) device unseen
   deriving Repr
 
 inductive Op
@@ -98,6 +102,20 @@ inductive Op
   | lostIdle (d : Nat)                 -- lost_idle_ball
   | incomingTimeout (d : Nat)          -- lost_incoming_ball
   | newBallFound                       -- found_new_ball
+  | manualLeft (d t : Nat)             -- mechanical eject during idle: handle_mechanical_eject_during_idle + already_left eject
+  | confirmManual (d t : Nat)          -- ball_eject_success of such an eject inside the confirm window (state still idle)
+  | manualTimeout (d : Nat)            -- its confirm window closed: state failed_confirm
+  | manualReturn (d : Nat)             -- its ball came back (incoming ball withdrawn at the target): no failure event, the
+                                       -- eject loop takes the request over with attempt 0
+  | extConfirm (d t : Nat)             -- ball_eject_success by the confirm switch / event: the target keeps the incoming ball
+                                       -- (a playfield: until playfield activity; a device: until it arrives or times out)
+  | pfArrivedStale (t src : Nat)       -- Playfield.ball_arrived pops an incoming ball whose eject is already confirmed
+  | pfArrivedFrom (t src : Nat)        -- Playfield.ball_arrived confirms the first incoming ball that *can* arrive (balls of
+                                       -- sources with an external confirmation cannot before their signal): not the head
+  | skipStart (d t : Nat)              -- `_skipping_ball`: ejecting_ball while waiting_for_ball (mechanical device)
+  | skipConfirm (d t : Nat)            -- the ball did pass: eject_success of `d` and confirmation of its source's eject
+  | skipConfirmIdle (d t : Nat)        -- the same while `d` was idle (no eject of its own pending)
+  | skipFail (d t : Nat)               -- it did not (it arrived in `d` after all, or went back): ball_eject_failed(1, retry)
   deriving Repr
 
 /-! ### accessors -/
@@ -111,6 +129,10 @@ def Cfg.isPf (c : Cfg) (i : Nat) : Bool := c.pf.getD i false
 def Cfg.capOf (c : Cfg) (i : Nat) : Int := c.cap.getD i 0
 def Cfg.maxOf (c : Cfg) (i : Nat) : Nat := c.maxT.getD i 0
 def Cfg.edge (c : Cfg) (a b : Nat) : Bool := c.edges.contains (a, b)
+def Cfg.isMech (c : Cfg) (i : Nat) : Bool := c.mech.getD i false
+def Cfg.isExt (c : Cfg) (i : Nat) : Bool := c.ext.getD i false
+def St.man (s : St) (i : Nat) : Bool := s.manual.getD i false
+def St.skp (s : St) (i : Nat) : Bool := s.skipping.getD i false
 
 /-- last element of `l`, or `d` when `l` is empty -/
 def lastOf : List Nat → Nat → Nat
@@ -144,6 +166,10 @@ def findAvail (c : Cfg) (s : St) (start : Nat) : Nat → Nat → Bool
     | none => decide (s.a t > 0)
     | some u => if u = start then false else if c.isPf u then true else findAvail c s start fuel u
 
+/-- `_skipping_ball` runs while the device waits for the ball of its current eject, or while it is idle -/
+def skipPhase (s : St) (d t : Nat) : Bool :=
+  (s.ph d == .waitBall && s.cu d == some t) || (s.ph d == .idle && s.cu d == none)
+
 /-- dequeue the next eject when idle -/
 def dequeue (s : St) (d : Nat) : Option St :=
   match s.cu d, s.queue.getD d [] with
@@ -159,7 +185,8 @@ def canCredit (s : St) (d : Nat) : Bool := s.ph d != .failedConfirm || decide (s
 
 def finishEject (s : St) (d : Nat) : St :=
   { s with counted := bump s.counted d (-1), phase := setAt s.phase d .idle, cur := setAt s.cur d none,
-           tries := setAt s.tries d 0, failed := setAt s.failed d false, confirmed := setAt s.confirmed d false }
+           tries := setAt s.tries d 0, failed := setAt s.failed d false, confirmed := setAt s.confirmed d false,
+           manual := setAt s.manual d false }
 
 /-- a ball is declared lost on its way to `t` and assumed to be on the playfield `c.missing`: cancel the rest of the
 path if it led there, else claim another ball for the path (`restore`); `none` = "Failed to restore the path" -/
@@ -246,7 +273,9 @@ def step (c : Cfg) (s : St) : Op → Option St
                     inflight := s.inflight + 1 }
     else none
   | .enterUnexpected d =>
-    if d < c.n && !c.isPf d && (s.incOf d).isEmpty && decide (s.c d < c.capOf d) then
+    -- no incoming ball that could have arrived: none registered, or only balls of sources with an external confirmation
+    -- (confirm switch / event), which cannot be matched before their signal
+    if d < c.n && !c.isPf d && ((s.incOf d).isEmpty || (s.incOf d).all (fun src => c.isExt src)) && decide (s.c d < c.capOf d) then
       some { s with balls := bump s.balls d 1, counted := bump s.counted d 1, inflight := s.inflight - 1 }
     else none
   | .pfArrived t =>
@@ -319,6 +348,90 @@ def step (c : Cfg) (s : St) : Op → Option St
     if c.missing < c.n && c.isPf c.missing && decide (total s.counted > s.known) then
       some { s with known := s.known + 1, balls := bump s.balls c.missing 1, avail := bump s.avail c.missing 1 }
     else none
+  | .manualLeft d t =>
+    -- the player lets go of a ball that rests in an idle mechanical device: the count drops with nothing queued.  The ball
+    -- is *adopted*: its claim moves to the target (like `plan`), an eject towards `t` is in progress (`cur`), the ball is
+    -- registered as incoming at `t`.  `balls`/`counted` still include it until the eject is confirmed (state stays idle).
+    if d < c.n && t < c.n && c.edge d t && !c.isPf d && c.isMech d && s.ph d == .idle && s.cu d == none
+        && (s.queue.getD d []).isEmpty && decide (s.b d > 0) && decide (s.a d > 0) && !s.man d then
+      some { s with avail := bump (bump s.avail d (-1)) t 1, cur := setAt s.cur d (some t), manual := setAt s.manual d true,
+                    heading := bump s.heading t 1, inc := setAt s.inc t (s.incOf t ++ [d]) }
+    else none
+  | .confirmManual d t =>
+    if d < c.n && t < c.n && c.edge d t && !c.isPf d && c.isPf t && s.man d && s.ph d == .idle && s.cu d == some t
+        && decide (s.b d > 0) && ((s.incOf t).contains d || s.confirmed.getD d false) then
+      let s1 := finishEject s d
+      -- (with an external confirmation the playfield keeps the incoming ball, see `extConfirm`)
+      some { s1 with balls := bump (bump s1.balls d (-1)) t 1,
+                     inc := setAt s1.inc t (if c.isExt d && (s.incOf t).contains d then s.incOf t else (s.incOf t).erase d),
+                     heading := bump s1.heading t (-1), delivered := s1.delivered + 1 }
+    else none
+  | .manualTimeout d =>
+    if d < c.n && !c.isPf d && s.man d && s.ph d == .idle && (s.cu d).isSome && decide (s.b d > 0) then
+      some { s with phase := setAt s.phase d .failedConfirm, balls := bump s.balls d (-1), inflight := s.inflight + 1 }
+    else none
+  | .manualReturn d =>
+    match s.cu d with
+    | some t =>
+      if d < c.n && t < c.n && c.edge d t && !c.isPf d && s.man d && s.ph d == .failedConfirm && !(s.failed.getD d false)
+          && (s.incOf t).contains d && decide (s.b d < s.c d) then
+        -- (the ball is credited and the phase changes with the `waitTarget`/`waitBall` that follows, as after any failure)
+        some { s with failed := setAt s.failed d true, manual := setAt s.manual d false, tries := setAt s.tries d 0,
+                      inc := setAt s.inc t ((s.incOf t).erase d), heading := bump s.heading t (-1) }
+      else none
+    | none => none
+  | .extConfirm d t =>
+    if d < c.n && t < c.n && c.edge d t && !c.isPf d && c.isExt d && (s.ph d == .ballLeft || s.ph d == .failedConfirm)
+        && !(s.failed.getD d false) && s.cu d == some t && decide (s.b d < s.c d) && (s.incOf t).contains d then
+      let s1 := finishEject s d
+      if c.isPf t then
+        some { s1 with balls := bump s1.balls t 1, inflight := s1.inflight - 1, heading := bump s1.heading t (-1),
+                       delivered := s1.delivered + 1 }
+      else
+        -- a device target: the source is done, the ball stays in flight and registered as incoming at the target until it
+        -- arrives there (`enterExpected`) or its incoming time-out runs out (`incomingTimeout`)
+        some s1
+    else none
+  | .pfArrivedStale t src =>
+    if t < c.n && c.isPf t && (s.incOf t).contains src then some { s with inc := setAt s.inc t ((s.incOf t).erase src) } else none
+  | .pfArrivedFrom t src =>
+    if t < c.n && c.isPf t && (s.incOf t).contains src then
+      some { s with inc := setAt s.inc t ((s.incOf t).erase src), confirmed := setAt s.confirmed src true }
+    else none
+  | .skipStart d t =>
+    if d < c.n && t < c.n && c.edge d t && !c.isPf d && c.isMech d && skipPhase s d t
+        && !(s.incOf d).isEmpty && !s.skp d then
+      some { s with skipping := setAt s.skipping d true, heading := bump s.heading t 1, inc := setAt s.inc t (s.incOf t ++ [d]) }
+    else none
+  | .skipConfirm d t =>
+    match s.incOf d with
+    | src :: rest =>
+      if d < c.n && t < c.n && c.edge d t && !c.isPf d && c.isPf t && s.skp d && s.ph d == .waitBall && s.cu d == some t
+          && ((s.incOf t).contains d || s.confirmed.getD d false) then
+        some { s with balls := bump s.balls t 1, inflight := s.inflight - 1, heading := bump (bump s.heading t (-1)) d (-1),
+                      inc := setAt s.inc d rest, confirmed := setAt (setAt s.confirmed d false) src true,
+                      phase := setAt s.phase d .idle, cur := setAt s.cur d none, tries := setAt s.tries d 0,
+                      skipping := setAt s.skipping d false, delivered := s.delivered + 1 }
+      else none
+    | [] => none
+  | .skipConfirmIdle d t =>
+    -- the device was idle (it was to keep the expected ball): the ball is on the playfield now, and so is its claim
+    match s.incOf d with
+    | src :: rest =>
+      if d < c.n && t < c.n && c.edge d t && !c.isPf d && c.isPf t && s.skp d && s.ph d == .idle && s.cu d == none
+          && ((s.incOf t).contains d || s.confirmed.getD d false) then
+        some { s with balls := bump s.balls t 1, inflight := s.inflight - 1, heading := bump (bump s.heading t (-1)) d (-1),
+                      inc := setAt s.inc d rest, confirmed := setAt (setAt s.confirmed d false) src true,
+                      avail := bump (bump s.avail d (-1)) t 1,
+                      skipping := setAt s.skipping d false, delivered := s.delivered + 1 }
+      else none
+    | [] => none
+  | .skipFail d t =>
+    if d < c.n && t < c.n && c.edge d t && !c.isPf d && s.skp d && skipPhase s d t
+        && (s.incOf t).contains d then
+      some { s with skipping := setAt s.skipping d false, heading := bump s.heading t (-1),
+                    inc := setAt s.inc t ((s.incOf t).erase d) }
+    else none
 
 /-- run a whole history; `none` as soon as one transition is not enabled -/
 def run (c : Cfg) : St → List Op → Option St
@@ -333,7 +446,50 @@ def initSt (c : Cfg) (counts : List Int) : St :=
     inc := List.replicate c.n [], heading := List.replicate c.n 0, phase := List.replicate c.n .idle,
     cur := List.replicate c.n none, tries := List.replicate c.n 0, failed := List.replicate c.n false,
     confirmed := List.replicate c.n false, queue := List.replicate c.n [], reqs := List.replicate c.n 0,
-    inflight := 0, known := total counts, brokenPosted := List.replicate c.n 0 }
+    inflight := 0, known := total counts, brokenPosted := List.replicate c.n 0, manual := List.replicate c.n false,
+    skipping := List.replicate c.n false }
+
+/-! ## the entrance-switch counter (`entrance_switch_counter.py`): a device without ball switches counts the hits of its
+entrance switch up and its own ejects down -/
+
+structure EC where
+  node : Nat := 0
+  cap : Nat := 0
+  fullTo : Bool := false          -- entrance_switch_full_timeout configured
+  last : Nat := 0                 -- `_last_count`
+  entries : Nat := 0              -- ghost: balls counted in
+  ejects : Nat := 0               -- ghost: balls counted out
+  dropped : Nat := 0              -- ghost: hits that were not counted (ignore window, device already full, short deferred hit)
+  pending : Bool := false         -- the hit that would fill the device waits for the full timeout or the switch opening
+  deriving Repr
+
+inductive ECOp
+  | hit (ignored : Bool)          -- `_entrance_switch_handler`; `ignored` = inside entrance_switch_ignore_window_ms
+  | full                          -- `_entrance_switch_full_handler`: a ball rests on the entrance switch
+  | left                          -- `_ball_left`: 10 ms after the device's own eject
+  | release                       -- `_entrance_switch_released_handler`
+  deriving Repr
+
+def ecStep (e : EC) : ECOp → Option EC
+  | .hit true => some { e with dropped := e.dropped + 1 }
+  | .hit false =>
+    if e.cap ≤ e.last then some { e with dropped := e.dropped + 1 }                       -- "already full": not counted
+    else if e.fullTo && e.cap == e.last + 1 then some { e with pending := true }          -- left to full handler / release
+    else some { e with last := e.last + 1, entries := e.entries + 1 }
+  | .full =>
+    if e.last < e.cap then some { e with entries := e.entries + (e.cap - e.last), last := e.cap, pending := false }
+    else some { e with pending := false }
+  | .left => if e.last > 0 then some { e with last := e.last - 1, ejects := e.ejects + 1 } else none
+  | .release =>
+    -- the switch opened before the full time-out: by design the deferred hit is taken for a bounce of the balls already in the
+    -- device (Gottlieb troughs: the balls roll down over the entrance switch after an eject) and dropped
+    if e.pending then some { e with dropped := e.dropped + 1, pending := false } else some e
+
+def ecRun : EC → List ECOp → Option EC
+  | e, [] => some e
+  | e, op :: rest => match ecStep e op with
+    | some e' => ecRun e' rest
+    | none => none
 
 /-! ## driver (monitor) -/
 
@@ -347,6 +503,7 @@ def showSt (c : Cfg) (s : St) : String :=
 structure DSt where
   c : Cfg := {}
   s : St := {}
+  ec : Option EC := none
 
 def nats (ts : List String) : Option (List Nat) := ts.mapM String.toNat?
 
@@ -375,6 +532,17 @@ def parseOp : List String → Option Op
   | ["lostIdle", d] => d.toNat?.map .lostIdle
   | ["incomingTimeout", d] => d.toNat?.map .incomingTimeout
   | ["newBallFound"] => some .newBallFound
+  | ["manualLeft", d, t] => do pure (.manualLeft (← d.toNat?) (← t.toNat?))
+  | ["confirmManual", d, t] => do pure (.confirmManual (← d.toNat?) (← t.toNat?))
+  | ["manualTimeout", d] => d.toNat?.map .manualTimeout
+  | ["manualReturn", d] => d.toNat?.map .manualReturn
+  | ["extConfirm", d, t] => do pure (.extConfirm (← d.toNat?) (← t.toNat?))
+  | ["pfArrivedStale", t, src] => do pure (.pfArrivedStale (← t.toNat?) (← src.toNat?))
+  | ["pfArrivedFrom", t, src] => do pure (.pfArrivedFrom (← t.toNat?) (← src.toNat?))
+  | ["skipStart", d, t] => do pure (.skipStart (← d.toNat?) (← t.toNat?))
+  | ["skipConfirm", d, t] => do pure (.skipConfirm (← d.toNat?) (← t.toNat?))
+  | ["skipFail", d, t] => do pure (.skipFail (← d.toNat?) (← t.toNat?))
+  | ["skipConfirmIdle", d, t] => do pure (.skipConfirmIdle (← d.toNat?) (← t.toNat?))
   | _ => none
 
 /-- node token: `p` (playfield) or `d,<cap>,<maxTries>,<balls>` -/
@@ -384,37 +552,76 @@ def parseNode (t : String) : Option (Bool × Int × Nat × Int) :=
   | ["d", a, b, e] => do pure (false, ((← a.toNat?) : Int), ← b.toNat?, ((← e.toNat?) : Int))
   | _ => none
 
+/-- extra tokens of the node section: `ec,<node>,<cap>,<fullTimeout 0|1>,<initial count>` and `mech,<node>` -/
+def parseEC (t : String) : Option EC :=
+  match t.splitOn "," with
+  | ["ec", n, cp, f, l] => do pure { node := ← n.toNat?, cap := ← cp.toNat?, fullTo := (← f.toNat?) != 0, last := ← l.toNat? }
+  | _ => none
+
+def parseMech (t : String) : Option Nat :=
+  match t.splitOn "," with
+  | ["mech", n] => n.toNat?
+  | ["ext", n] => n.toNat?
+  | _ => none
+
+def parseECOp : List String → Option ECOp
+  | ["hit", i] => i.toNat?.map fun k => .hit (k != 0)
+  | ["full", _] => some .full
+  | ["left", _] => some .left
+  | ["release", _] => some .release
+  | _ => none
+
 def parseEdge (t : String) : Option (Nat × Nat) :=
   match t.splitOn ">" with
   | [a, b] => do pure (← a.toNat?, ← b.toNat?)
   | _ => none
 
 /-- `cfg <missing> <node>... | <edge>...` -/
-def parseCfg (ts : List String) : Option (Cfg × St) :=
+def parseCfg (ts : List String) : Option (Cfg × St × Option EC) :=
   match ts with
   | m :: rest =>
-    let nodesT := rest.takeWhile (· != "|")
+    let sect := rest.takeWhile (· != "|")
+    let nodesT := sect.filter (fun t => !(t.startsWith "ec,") && !(t.startsWith "mech,") && !(t.startsWith "ext,"))
+    let extT := sect.filter (·.startsWith "ext,")
+    let ecT := sect.filter (·.startsWith "ec,")
+    let mechT := sect.filter (·.startsWith "mech,")
     let edgesT := (rest.dropWhile (· != "|")).drop 1
     do
       let ns ← nodesT.mapM parseNode
       let es ← edgesT.mapM parseEdge
+      let ecs ← ecT.mapM parseEC
+      let ms ← mechT.mapM parseMech
+      let xs ← extT.mapM parseMech
       let c : Cfg := { n := ns.length, pf := ns.map (·.1), cap := ns.map (·.2.1), maxT := ns.map (·.2.2.1), edges := es,
-                       missing := ← m.toNat? }
-      pure (c, initSt c (ns.map (·.2.2.2)))
+                       missing := ← m.toNat?, mech := (List.range ns.length).map (fun i => ms.contains i),
+                       ext := (List.range ns.length).map (fun i => xs.contains i) }
+      pure (c, initSt c (ns.map (·.2.2.2)), ecs.head?)
   | [] => none
+
+def showAll (d : DSt) : String :=
+  match d.ec with
+  | some e => showSt d.c d.s ++ s!" ec={e.last}"
+  | none => showSt d.c d.s
 
 def driverStep (d : DSt) (line : String) : DSt × String :=
   match line.splitOn " " with
   | "cfg" :: rest =>
     match parseCfg rest with
-    | some (c, s) => ({ c := c, s := s }, showSt c s)
+    | some (c, s, ec) => let d' : DSt := { c := c, s := s, ec := ec }; (d', showAll d')
     | none => (d, "bad-op")
-  | ["show"] => (d, showSt d.c d.s)
+  | ["show"] => (d, showAll d)
+  | "ec" :: rest =>
+    match d.ec, parseECOp rest with
+    | some e, some op =>
+      match ecStep e op with
+      | some e' => let d' := { d with ec := some e' }; (d', showAll d')
+      | none => (d, "not-enabled")
+    | _, _ => (d, "bad-op")
   | ts =>
     match parseOp ts with
     | some op =>
       match step d.c d.s op with
-      | some s' => ({ d with s := s' }, showSt d.c s')
+      | some s' => let d' := { d with s := s' }; (d', showAll d')
       | none => (d, "not-enabled")
     | none => (d, "bad-op")
 
